@@ -18,6 +18,18 @@ CLAIMED = {
          "Lean totality theorems over decoder model with checked slices + differential correspondence incl. panics", "5 C11"),
  "C18": ("proof", "Lean scan lemma: the first SOH·tag·= occurrence in a well-formed field sequence is at the boundary of the first field with that tag; correspondence on messages with adversarial values and foreign fields with decimal-extension tags; lookupField oracle on real ValueByTag output.",
          "Lean scan lemma + differential correspondence + field-boundary lookup oracle", "5 C18"),
+ "C06": ("proof", "Lean: for every event history, store and role, logged on implies an acceptable Logon was received (induction with invariant SInv/Auth); acceptor reply echoes heartbeat interval and encryption method; every other Logon gets exactly one Reject by sequence number; initiator's first message is its Logon. Session model = real Session step by step on random histories; logon oracles on implementation output.",
+         "Lean invariant over all histories + step correspondence with real Session + logon oracles", "5 C06"),
+ "C07": ("proof", "Lean theorem C07_preauth: for all histories without an acceptable Logon (timers, any store content, both roles) every emitted message is Logon/Logout/Reject; correspondence with the real Session incl. a second session on a shared store; pre-logon output oracle.",
+         "Lean theorem over all histories + step correspondence + pre-logon oracle", "5 C07"),
+ "C10": ("proof", "Lean: the store after any history is exactly the numbered messages in order (trace_run), so ResendRequest(b,e) returns sent[b..e], e=0 through the last, never outside; gap at logon asks from the first missing number. Correspondence + byte-identity oracle on real retransmissions.",
+         "Lean store-trace invariant + correspondence + byte-identity oracle", "5 C10"),
+ "C14": ("proof", "Lean theorem C14_echo (exactly one Heartbeat with the same TestReqID, in the same dispatch step) + correspondence with adversarial TestReqIDs through the real decoder.",
+         "Lean theorem + step correspondence + echo oracle", "5 C14"),
+ "C15": ("proof", "Lean theorems for peer logout, own logout, Stop ended by the answer or the deadline, cancellation permanent; correspondence incl. Stop scenarios; the wall-clock part (deadline fires at CloseTimeout) is measured, not proved.",
+         "Lean theorems over session model + correspondence + wall-clock oracle for Stop", "5 C15"),
+ "C16": ("proof", "Lean theorems: every admin kind, unparsable or not permitted in the state, yields exactly one Reject (by sequence number, or naming tag 34) and leaves loggedOn/settings/timers/cancellation untouched; correspondence with damaged messages in every state.",
+         "Lean theorems over session model + correspondence + reject oracle", "5 C16"),
 }
 NOT_YET = {}
 
